@@ -18,10 +18,10 @@ ASSUME = ["exact arc-length positions are only given where segment lengths are i
 def check(tier, seed, t0):
     if tier == "quick":
         runs = [dict(name="n4", module="Gen_LineMeasure", constants=dict(K=4, MaxN=4, Stride=3, Offset=seed % 3, Mode="integer", BigN="{130, 257}"), invariants=["WalkOK"]),
-                dict(name="g4", module="Gen_LineMeasure", constants=dict(K=3, MaxN=4, Stride=4, Offset=seed % 4, Mode="general", BigN="{}"), invariants=["WalkOK"])]
+                dict(name="g4", module="Gen_LineMeasure", constants=dict(K=3, MaxN=4, Stride=4, Offset=seed % 4, Mode="general", BigN="{67, 129, 200, 1030}"), invariants=["WalkOK"])]
     else:
         runs = [dict(name="n5", module="Gen_LineMeasure", constants=dict(K=4, MaxN=5, Stride=1, Offset=0, Mode="integer", BigN="{130, 257}"), invariants=["WalkOK"], timeout=3000),
-                dict(name="g5", module="Gen_LineMeasure", constants=dict(K=3, MaxN=5, Stride=4, Offset=seed % 4, Mode="general", BigN="{}"), invariants=["WalkOK"], timeout=3000)]
+                dict(name="g5", module="Gen_LineMeasure", constants=dict(K=3, MaxN=5, Stride=4, Offset=seed % 4, Mode="general", BigN="{67, 129, 200, 1030, 4100}"), invariants=["WalkOK"], timeout=3000)]
     vf.simple_check("C15", tier, seed, t0, runs, RULE, ASSUME, nontrivial=lambda c: (c.get("len", 1) > 0 and len(c["cs"]) >= 3))
 
 
